@@ -554,7 +554,12 @@ pub fn run(ctx: &Ctx) -> i32 {
     );
     if uncovered > 0 || doubled > 0 {
         eprintln!("MACHINERY-ERROR: coverage accounting failed ({} uncovered, {} doubled)", uncovered, doubled);
-        return 2;
+        // violations already found and printed stand (a tree on which thousands of configurations
+        // kill their worker exhausts the supervisor's budget of deaths); without any, an
+        // incomplete sweep is no verdict
+        if code == 0 {
+            return 2;
+        }
     }
     code
 }
